@@ -489,7 +489,7 @@ pub fn main(args: &[String]) -> i32 {
     let mut miri_json = serde_json::Value::Null;
     // (sim, quick seeds, quick scenarios per seed, thorough seeds, thorough scenarios per seed)
     let miri_plan: Option<(&str, u64, u64, u64, u64)> = match prop.as_str() {
-        "C18" => Some(("cache", 32, 6, 512, 8)),
+        "C18" => Some(("cache", 32, 6, 384, 8)),
         "C13" => Some(("lazy", 8, 3, 96, 6)),
         "C05" => Some(("io", 8, 4, 48, 8)),
         "C16" => Some(("arena", 12, 2, 128, 3)),
@@ -503,7 +503,7 @@ pub fn main(args: &[String]) -> i32 {
         let m = if seeds == 0 {
             MiriOutcome { seeds: 0, first_seed: first, scenarios_ok: 0, wall_s: 0.0, failing_seed: None, error_excerpt: vec![], harness_error: None }
         } else {
-            miri_engine(&verif, msim, first, seeds, count, if tier == "thorough" { 7200 } else { 1200 })
+            miri_engine(&verif, msim, first, seeds, count, if tier == "thorough" { 14400 } else { 2400 })
         };
         println!("miri engine: seeds {}..{} scenarios_ok={} wall={:.1}s failing_seed={:?}", first, first + seeds, m.scenarios_ok, m.wall_s, m.failing_seed);
         if let Some(e) = &m.harness_error {
